@@ -351,7 +351,8 @@ theorem reconcile_roll (w : World) (wl : WL) (s1 : Sub) (hg : RoGood w.ro) (hph 
        | .val r =>
          if r.err then .val { w := { r.w with ro := w.ro }, roGone := false, requeue := false, err := true, writes := [] ++ r.writes }
          else .val { w := r.w, roGone := false, requeue := r.requeue, err := false, writes := [] ++ r.writes }) := by
-  unfold reconcile
+  rw [reconcile_eq_core_of_alive w hg.notDeleting hg.enabled]
+  unfold reconcileCore
   dsimp only
   rw [hf_good w.ro hg, hwl]
   dsimp only
